@@ -124,6 +124,10 @@ class Module:
 
         from .normalize import desugar_walrus
 
+        from .normalize import canonical_imports, deannotate
+
+        deannotate(self.tree)
+        canonical_imports(self.tree)
         self.normalised = desugar_walrus(self.tree) + normalize(self.tree)
         self.lines = self.source.splitlines()
         self.functions: dict[str, FuncInfo] = {}
